@@ -377,6 +377,59 @@ func runC02(c *core.Ctx, ck *Check) {
 			tryWith(strings.Join(groups, osep), toks)
 			w.Count("shape:or", 1)
 		}
+		// OR of 3-5 SPANS (lower AND upper) over one run of neighbouring bounds: spans overlap, touch (same bound with
+		// every inclusive / exclusive combination) or leave a one-class gap; the groups are written in shuffled order.
+		// Interval merging, normalisation and "sorted spans" fast paths go wrong exactly between such neighbours.
+		var lowSp, upSp []string
+		for _, sp := range spell {
+			switch syn.ops[sp] {
+			case ">", ">=":
+				lowSp = append(lowSp, sp)
+			case "<", "<=":
+				upSp = append(upSp, sp)
+			}
+		}
+		for k := 0; k < c.Scale(150, 600) && len(syn.or) > 0 && len(near) >= 8 && len(lowSp) > 0 && len(upSp) > 0; k++ {
+			osep := syn.or[r.IntN(len(syn.or))]
+			g := 3 + r.IntN(3)
+			at := r.IntN(len(near) - 7)
+			pos := at // position in near of the current span's lower bound
+			type span struct {
+				txt  string
+				toks []string
+			}
+			var spans []span
+			for x := 0; x < g && pos < len(near)-1; x++ {
+				lo := pos
+				hi := lo + 1 + r.IntN(3)
+				if hi >= len(near) {
+					hi = len(near) - 1
+				}
+				ls, us := lowSp[r.IntN(len(lowSp))], upSp[r.IntN(len(upSp))]
+				lb, ub := p.Strs[near[lo]], p.Strs[near[hi]]
+				sep := syn.and[r.IntN(len(syn.and))]
+				spans = append(spans, span{ls + lb + sep + us + ub, []string{ls, lb, us, ub}})
+				// next span: starts inside this one (overlap), on its upper bound (touch) or one step later (gap)
+				pos = hi - 1 + r.IntN(3)
+				if pos <= lo {
+					pos = lo + 1
+				}
+			}
+			if len(spans) < 3 {
+				continue
+			}
+			r.Shuffle(len(spans), func(a, b int) { spans[a], spans[b] = spans[b], spans[a] })
+			var groups, toks []string
+			for x, sp := range spans {
+				if x > 0 {
+					toks = append(toks, "||")
+				}
+				groups = append(groups, sp.txt)
+				toks = append(toks, sp.toks...)
+			}
+			tryWith(strings.Join(groups, osep), toks)
+			w.Count("shape:or-of-spans", 1)
+		}
 		w.Sample(map[string]any{"eco": e.Name, "example_range": spell[0] + p.Strs[bounds[0]], "probes": n, "bounds": len(bounds)})
 	})
 }
